@@ -28,6 +28,10 @@ static void prepare_other_kind(G2Prepared& pq, const G2Affine& q) {
     pq.prepare(other);
 }
 
+// the prepared-pair record's private cursor, if the record (still) has one; -7 otherwise (a record without it keeps its state somewhere else)
+template <typename T> static auto read_cursor(const T& pp, int) -> decltype((long long) pp._coeff_idx) { return (long long) pp._coeff_idx; }
+template <typename T> static long long read_cursor(const T&, long) { return -7; }
+
 static void run_case(const JVal& in) {
     JVal ev = in;
     ev.set("cfg", VERIF_CFG);
@@ -80,7 +84,7 @@ static void run_case(const JVal& in) {
             embedded_pairing_bls12_381_pairing_sum((embedded_pairing_bls12_381_fq12_t*) &r, aps.empty() ? nullptr : aps.data(), aps.size(), pps.empty() ? nullptr : pps.data(), pps.size());
             results.push(J(r));
             JVal cs = JVal::arr();
-            for (auto& pp : pps) cs.push(JVal((long long) pp._coeff_idx));
+            for (auto& pp : pps) cs.push(JVal((long long) read_cursor(pp, 0)));
             cursors.push(cs);
         }
         out.set("results", results); out.set("cursors", cursors);
